@@ -89,7 +89,7 @@ def f1_predicate(spec, sr):
 
 def run(tier, seed):
     rng = random.Random(seed)
-    n = 220 if tier == "quick" else 5000
+    n = 220 if tier == "quick" else 12000
     violations = []
     bycf = {k: [] for k in CF}
     meta = {k: [] for k in CF}
